@@ -232,3 +232,22 @@ def cl3(ctx):
             det = {"allocated": show(al), "min": show(ms), "discarded": show(di), "sentinel": show(se)}
             ok = al == size and ms == mn and di == const(0) and tag(se) == "pack" and all(tag(x) == "named" and x[1].startswith("SENTINEL_SEGMENT_NODE") and x[2] == 0xFFFFFFFF for x in se[1:])
         yield Ob(key_of("C17-Cl3", b.path, "fields"), ok, "Header::new aggregate: %s" % det, b.loc())
+
+
+@rule("C17-W5", "C17", 2, "rewind: a narrowing cast of the (64-bit) target position to u32 is dominated by guards bounding it inside [0, cap] - a truncating cast would "
+      "land a far-away target somewhere inside the arena instead of clamping it")
+def w5(ctx):
+    for fl in FLAVOURS:
+        b = arena_fn(ctx, fl, "rewind")
+        ev, res = ctx.eval(b)
+        SELF = ("param", 0, "self")
+        POS = ("param", 1, "pos")
+        cap = field(SELF, "cap")
+        casts = [c for c in res.log if c["kind"] == "cast" and not c["chain"] and c["ty"] == "u32" and mentions(c["value"], ("payload", POS, "Current", 0))]
+        if not casts:
+            yield Ob(key_of("C17-W5", b.path, "no-narrowing-cast"), True, "the Current target is never narrowed to u32 by a cast", b.loc())
+        for i, c in enumerate(casts):
+            order, fs = order_for(ctx, ev, c)
+            v = canon(c["value"])
+            ok = order.le(const(0), v) and order.le(v, cap)
+            yield Ob(key_of("C17-W5", b.path, "narrowing-cast", i + 1), ok, "`%s as u32` %s" % (short(v, 70), "is bounded by dominating guards (0 <= v <= cap)" if ok else "is NOT bounded: values >= 2^32 are truncated before the clamp"), ctx.loc(c))
